@@ -69,7 +69,8 @@ def merge(results):
              violations=[], vcount=collections.Counter(), notes=[], tape_events=0, tape_pairs=0,
              tape_breaks=0, boundary_calls=collections.Counter(), boundary_raises=collections.Counter(),
              reach={}, attached=collections.Counter(), elapsed=0.0, first_breaks=[],
-             contract_evals=collections.Counter(), contract_breaks=collections.Counter())
+             contract_evals=collections.Counter(), contract_breaks=collections.Counter(),
+             twin_injections=0, twin_kinds=collections.Counter(), twin_refused=0)
     for r in results:
         m['counters'].update(r['counters'])
         m['distinct'].update(r['distinct'])
@@ -93,6 +94,10 @@ def merge(results):
         cst = mon.get('contracts', {})
         m['contract_evals'].update(cst.get('evaluations', {}))
         m['contract_breaks'].update(cst.get('breaks', {}))
+        tw = mon.get('twins', {})
+        m['twin_injections'] += tw.get('injections', 0)
+        m['twin_kinds'].update(tw.get('by_kind', {}))
+        m['twin_refused'] += tw.get('twin_calls_refused', 0)
         for fn, (hit, tot) in mon.get('reach', {}).items():
             old = m['reach'].get(fn, [0, tot])
             m['reach'][fn] = [max(old[0], hit), tot]
@@ -125,6 +130,12 @@ def run_check(prop, tier, seed, nshards=None, replay=None, quiet=False):
     os.makedirs(scratch, exist_ok=True)
     env = worker_env()
     env['VERIF_SCRATCH'] = scratch
+    os.environ['VERIF_SCRATCH'] = scratch
+    try:
+        from mon import twins
+        twins.build_roots(scratch)          # tables roots / definitions directory of the differently configured twins
+    except Exception as e:
+        print('NOTE twins roots not built: %r' % (e,))
     procs = []
     for i in range(nshards):
         out = os.path.join(scratch, 'shard%d.json' % i)
@@ -240,6 +251,8 @@ def run_check(prop, tier, seed, nshards=None, replay=None, quiet=False):
                           tape_invariant_breaks=m['tape_breaks'],
                           contract_evaluations=dict(m['contract_evals']),
                           contract_breaks=dict(m['contract_breaks']),
+                          twins=dict(injections=m['twin_injections'], twin_calls_refused=m['twin_refused'],
+                                     twin_calls_by_kind=dict(m['twin_kinds'])),
                           anchor_lines_reached=m['reach']),
                       shards=nshards, shards_lost=len(failed),
                       status=status, inconclusive_reasons=reasons,
